@@ -127,7 +127,9 @@ def closed_layout(w, a, h, s):   # unified_result / unified_layout_invalid ; Non
 def expected_for(line):
     """closed-form result line for a size-function / model line, or None when the line has no closed form"""
     f = line.split()
-    if f[0] in ("fp", "tbl", "gs", "cmp", "seq", "layenc", "errs"):
+    if f[0] == "edge":     # cfp_edge_statement / raw_protocols_ok: the iteration initialises all it hands to the codec
+        return "edge true calls=%d" % cdiv(int(f[3]), (T["mcuh"][int(f[4])] // 8) * 8)
+    if f[0] in ("fp", "rawfp", "tbl", "gs", "cmp", "seq", "layenc", "errs"):
         return None
     k, v = f[0], [int(x) for x in f[1:]]
     if k == "pw":
@@ -172,8 +174,8 @@ def expected_for(line):
 
 
 FP_DIST = {}
-IMPL_KINDS = {"pw", "ph", "bs", "ps", "pwr", "phr", "bsr", "psr", "sc", "tbl", "gs", "fp", "layenc", "errs", "cmp", "seq"}
-MODEL_KINDS = {"pw", "ph", "bs", "bs32", "ps", "ps32", "pwr", "phr", "bsr", "psr", "sc", "tbl", "gs", "fp", "lay", "cd", "dct"}
+IMPL_KINDS = {"pw", "ph", "bs", "ps", "pwr", "phr", "bsr", "psr", "sc", "tbl", "gs", "fp", "rawfp", "layenc", "errs", "cmp", "seq"}
+MODEL_KINDS = {"pw", "ph", "bs", "bs32", "ps", "ps32", "pwr", "phr", "bsr", "psr", "sc", "tbl", "gs", "fp", "rawfp", "edge", "lay", "cd", "dct"}
 
 
 def layenc_line(w, a, h, s):
@@ -345,6 +347,23 @@ def gen_cases(ctx):
             cls.append("null" if snull else name)
         add("fp %s %d %d %d %d %d %d %d %d" % (fn, snull, st[0], st[1], st[2], w, h, s, sfi), "footprint-" + fn)
         FP_DIST[(fn, cls[0])] = FP_DIST.get((fn, cls[0]), 0) + 1
+    # ---- rows/columns every jpeg_read_raw_data call writes (real library) vs the generated library statements (model/RawData.v);
+    #      edge replication of tj3CompressFromYUVPlanes8 through the executable event checker of the model
+    nr = ctx.n(1500, 8000)
+    for i in range(nr):
+        s = rng.below(nsamp)
+        sfi = rng.below(nsf)
+        if s == 2 and T["sf"][sfi][0] < T["sf"][sfi][1]:      # libjpeg upsamples 4:2:0 chroma in the IDCT there: not modelled
+            sfi = T["sf"].index((1, 1))
+        w, h = (rng.range(1, 70), rng.range(1, 70)) if rng.chance(3, 4) else (T["mcuw"][s] * rng.range(1, 6), T["mcuh"][s] * rng.range(1, 6))
+        add("rawfp %d %d %d %d" % (w, h, s, sfi), "rawdata-footprint")
+    ne = ctx.n(3000, 15000)
+    for i in range(ne):
+        s = rng.below(nsamp)
+        w, h = rng.range(1, 90), rng.range(1, 90)
+        step = (T["mcuh"][s] // 8) * 8
+        row = step * rng.below(cdiv(h, step))
+        add("edge %d %d %d %d %d" % (rng.below(ncomp(s)), w, h, s, row), "model-edge-replication")
     # ---- TurboJPEG 2.x entry points (tjDecompressToYUV2/ToYUV/ToYUVPlanes/tjDecompress(TJ_YUV), tjDecodeYUV[Planes], tjEncodeYUV3/Planes,
     #      tjCompressFromYUV[Planes], tjBufSizeYUV2, tjPlaneSizeYUV, tjPlaneWidth/Height) on REUSED handles over image sequences with
     #      changing subsampling and dimensions (A, B, A', ...), with and without a header call in between: each result must be the
@@ -446,6 +465,7 @@ def run(ctx):
                 if l:
                     cases.append((l, "corpus"))
     cases += gen_cases(ctx)
+    ctx.log("%d case lines generated" % len(cases))
     return run_cases(ctx, cases, exes, drv, flavours)
 
 
@@ -479,7 +499,10 @@ def run_cases(ctx, cases, exes, drv, flavours):
     impl_idx = [i for i, (l, st) in enumerate(cases) if l.split()[0] in IMPL_KINDS]
     model_idx = [i for i, (l, st) in enumerate(cases) if l.split()[0] in MODEL_KINDS]
     # asan build: everything except that the compose stream is thinned in the quick tier
-    outs = {}
+    # the builds and the extracted model run concurrently (independent processes)
+    from concurrent.futures import ThreadPoolExecutor
+    jobs = {}
+    pool = ThreadPoolExecutor(max_workers=len(flavours) + 1)
     for fl in flavours:
         idx = impl_idx
         if fl != flavours[0] and not ctx.thorough() and not ctx.replay:
@@ -492,7 +515,15 @@ def run_cases(ctx, cases, exes, drv, flavours):
                 keep.append(i)
             idx = keep
         lines = [cases[i][0] for i in idx]
-        res, crashes = run_stream(ctx, exes[fl], lines, fl, 3000)
+        jobs[fl] = (idx, lines, pool.submit(run_stream, ctx, exes[fl], lines, fl, 3000))
+    if drv:
+        mlines = [cases[i][0] for i in model_idx]
+        jobs["model"] = (model_idx, mlines, pool.submit(run_stream, ctx, drv, mlines, "model", 3000))
+    outs = {}
+    for fl in flavours:
+        idx, lines, fut = jobs[fl]
+        res, crashes = fut.result()
+        ctx.log("harness (%s build): %d lines done" % (fl, len(lines)))
         for (k, rc, err) in crashes:
             ctx.violation("implementation crashed/aborted (%s build, rc=%s) on: %s :: %s" % (fl, rc, lines[k][:120], err[-400:]),
                           {"case": lines[k], "flavour": fl, "stderr": err[-3000:]},
@@ -500,11 +531,13 @@ def run_cases(ctx, cases, exes, drv, flavours):
         outs[fl] = dict(zip(idx, res))
     mout = {}
     if drv:
-        lines = [cases[i][0] for i in model_idx]
-        res, crashes = run_stream(ctx, drv, lines, "model", 3000)
+        idx, lines, fut = jobs["model"]
+        res, crashes = fut.result()
+        ctx.log("extracted model: %d lines done" % len(lines))
         for (k, rc, err) in crashes[:2]:
             ctx.broken_tie("model-driver", "extracted model failed on %s: rc=%s %s" % (lines[k][:100], rc, err[-200:]))
         mout = dict(zip(model_idx, res))
+    pool.shutdown()
 
     ref = outs[flavours[0]]
     disagree = 0
@@ -559,7 +592,7 @@ def run_cases(ctx, cases, exes, drv, flavours):
                     if o is not None and o.startswith("fp FAIL"):
                         ctx.violation("per-plane function writes outside the tj3YUVPlaneSize extent (%s build): %s :: %s" % (fl, line, o[8:200]),
                                       {"case": line, "flavour": fl, "impl": o}, signature="footprint:" + line.split()[1])
-                if impl is not None and "lj" in impl:
+                if impl is not None and " lj " in impl:
                     FP_DIST[("dtp-path", impl.split()[-1])] = FP_DIST.get(("dtp-path", impl.split()[-1]), 0) + 1
             # size functions: implementation vs closed form (the published geometry) is the property-level oracle
             if impl is not None and exp is not None and impl != exp:
@@ -570,6 +603,9 @@ def run_cases(ctx, cases, exes, drv, flavours):
                 if o is not None and impl is not None and o != impl:
                     ctx.violation("builds disagree (%s vs %s) on %s" % (flavours[0], fl, line), {"case": line, flavours[0]: impl, fl: o},
                                   signature="build-disagree:" + kind)
+            if kind == "rawfp" and impl is not None and impl.startswith("rawfp skip"):
+                impl = None
+                model = None
             if model is not None:
                 other = impl if impl is not None else exp
                 if model != other or (exp is not None and model != exp):
